@@ -207,6 +207,9 @@ pub struct RunResult {
     pub probes: Counters,
     /// harness-level error (not a property violation)
     pub harness_error: Option<String>,
+    /// engine-specific payload (e.g. answer digests compared across twin runs)
+    #[serde(default)]
+    pub extra: Option<serde_json::Value>,
 }
 
 /// Aggregate over many runs; serialised for the orchestrator.
